@@ -150,6 +150,17 @@ func genC11(rt *rapid.T) C11Case {
 	}
 	prof.Tagger = func(t *rapid.T, f *shape.Field, depth int) {
 		var parts []string
+		// A Go name whose LAST word is an initialism is put in the plural in a
+		// third of the cases (UserID -> UserIDs, words [user ids]): the
+		// unmodified decoder reads a plural initialism at the end of a name
+		// as one word for every initialism.  (In the middle of a name --
+		// AllowedIPsCount -- it does not: see Assumptions; never generated.)
+		if n := len(f.Words); n > 0 && (f.Kind == "leaf" || f.Kind == "struct" || f.Kind == "pstruct") && c11Initialisms[f.Words[n-1]] &&
+			strings.HasSuffix(f.Name, strings.ToUpper(f.Words[n-1])) && rapid.IntRange(0, 2).Draw(t, "plural_initialism") == 0 {
+			f.Words = append(append([]string{}, f.Words[:n-1]...), f.Words[n-1]+"s")
+			f.Name += "s"
+			noteTag("name:plural-initialism-at-end")
+		}
 		tagPct := 35
 		if f.Kind == "leaf" {
 			tagPct = 30
@@ -903,7 +914,7 @@ func runC11(c C11Case) vrt.Verdict {
 	return vrt.OK(nonTrivial, labels...)
 }
 
-const c11Rule = "config struct types from the shape grammar restricted to leaves the env source casts from text (bool, ints, uints, floats, complex, string, time.Duration, pointers to scalars, slices of scalars, maps with string keys incl. sets and map[string][]string, named collection types) plus inert leaves it cannot fill (time.Time, text-unmarshalable structs, arrays, uintptr, **int, net.IP), nested / pointer / embedded structs to depth 3, skipped fields in half the cases; " +
+const c11Rule = "config struct types from the shape grammar restricted to leaves the env source casts from text (bool, ints, uints, floats, complex, string, time.Duration, pointers to scalars, slices of scalars, maps with string keys incl. sets and map[string][]string, named collection types) plus inert leaves it cannot fill (time.Time, text-unmarshalable structs, arrays, uintptr, **int, net.IP), nested / pointer / embedded structs to depth 3, Go field names from word lists with initialisms (a name whose last word is an initialism is put in the plural in a third of the cases: UserIDs, DB.BackendURLs, struct AllowedIPs{...}), skipped fields in half the cases; " +
 	"`dials` tags at any level rendered from word lists in snake, kebab, lowerCamel, UpperCamel, the four spellings DecodeGoTags documents (initialisms in camel tags come from the golint list and are fully capitalised except as the leading word of a lowerCamel tag; every other word has >= 3 letters; digit runs only as whole non-leading snake/kebab components), `dialsenv` tags on leaves, optional prefix (fixed spellings, or in 1/4 of the cases the leading 1..3 words of some leaf's own derived name or dialsenv tag, e.g. Prefix DB with leaf DB.Host: the documented variable DB_DB_HOST is then usually set and the un-prefixed look-alike DB_HOST is present as noise with another acceptable text); " +
 	"a subset of variables set (10/50/90 % density) with boundary-biased values and quoting-heavy strings rendered by the harness (strconv incl. 0x / 0o / legacy-octal leading-zero integer spellings, Duration.String, the documented comma/colon collection syntax with Go quoting; in string-valued maps and map[string][]string an empty value is often written as a value-less entry `k` or `k:`, also right after valued entries, which means the empty text for every map kind on the unmodified parser); noise variables derived from real names (wrong case, missing/extra prefix, dropped or doubled separators, path-joined name of a dialsenv leaf, names of skipped fields, prefixes/suffixes, sibling joins); in about half of the cases one or two further Value calls are made on the SAME *env.Source with another environment (each variable of the previous call disappears / changes / stays, others appear, noise is thinned, sometimes a bad text), every result is compared with the model of its own call and the earlier results are re-compared at the end; in 1/4 of the cases one unparsable or just-out-of-range text (incl. float32/complex64 parts just beyond float32, for scalar-valued maps a value-less entry after a valued one: a:10,b: is an error, not b:10; for slice and set leaves of every element kind two items not separated by a comma -- adjacent quoted literals, text right after a closing quote, tab- or newline-separated items -- which is an error, not a list without the later item). " +
 	"Oracle: expected variable name known by construction (dialsenv verbatim, else UPPER_SNAKE of tag/name words along the path, untagged embedded structs contribute nothing, prefix + '_' in front of every name); result has the requested type; a leaf is non-nil iff its variable is present and then equals the generated value; defaults stacked with the result equal defaults with exactly those leaves replaced; a bad text gives an error and an invalid Value. " +
@@ -914,6 +925,7 @@ var c11Assumptions = []string{
 	"the empty map key is written quoted (\"\":v), as the repaired splitMap accepts it",
 	"named scalar leaf types (and collections of them) and *[]T, *map, [][]T leaves are included since their repairs; C11_NAMED_SCALARS=0 / C11_PANICKY_COLLECTIONS=0 exclude them again",
 	"integers are Go integer literals (parse.parseNumber calls ParseInt/ParseUint with base 0; observed on the unmodified tree for signed, unsigned and named kinds, also as slice elements and map values): a share of the texts carry a 0x / 0o prefix, a + sign, or a leading zero, which means legacy octal (0755 = 493, -010 = -8, 00 = 0); 089, 09, -08 are errors",
+	"untagged Go names may end in a plural initialism (UserIDs, BackendURLs, also as the name of an intermediate struct): the unmodified DecodeGoCamelCase reads it as one word (user+ids) for every initialism. A plural initialism in the MIDDLE of one name (AllowedIPsCount, IDsCount) is decoded allowed+i+ps+count by the unmodified tree as well, so such names are outside the generated domain (reported, not asserted)",
 	"one *env.Source serves every call of a case (1..3 calls with the same config type, different environments); each result must be a function of that call's environment alone and earlier results must stay as returned",
 	"two leaves whose names coincide legitimately share one variable; such a group is only given a value when all its leaves have the same type",
 	"ALL-CAPS / UPPER_SNAKE `dials` tags are outside the domain: the env source decodes dials tags with caseconversion.DecodeGoTags, which documents only CamelCase, snake_case and kebab-case with fully capitalised acronyms and reads an all-caps word as an acronym run by design",
